@@ -1224,7 +1224,7 @@ theorem entries_filter_ne (p : List File) (u v : String) :
 only. -/
 def elEffect (el : DeltaEl) (v : String) (cs : List String) : List String :=
   match el with
-  | .publish u c => if u = v then cs ++ [c] else cs
+  | .publish u c => if u = v then [c] else cs
   | .update u c => if u = v then [c] else cs
   | .withdraw u => if u = v then [] else cs
 
@@ -1232,7 +1232,7 @@ theorem entries_applyEl (p : List File) (el : DeltaEl) (v : String) :
     entries (applyEl p el) v = elEffect el v (entries p v) := by
   cases el with
   | publish u c =>
-    simp only [applyEl, elEffect, entries_append]
+    simp only [applyEl, elEffect, entries_append, entries_filter_ne]
     by_cases h : u = v <;> simp [entries, h]
   | update u c =>
     simp only [applyEl, elEffect, entries_append, entries_filter_ne]
@@ -1251,6 +1251,13 @@ theorem inSync_applyDelta (p m : List File) (d : List DeltaEl) (h : InSync p m) 
   | nil => exact h
   | cons el t ih => exact ih _ _ (inSync_applyEl p m el h)
 
+theorem filter_ne_of_absent (m : List File) (u : String) (h : m.any (fun e => decide (e.1 = u)) = false) :
+    m.filter (fun e => e.1 != u) = m := by
+  rw [List.filter_eq_self]
+  intro a ha
+  simp only [List.any_eq_false, decide_eq_true_eq] at h
+  simp [h a ha]
+
 /-- The server applies an accepted element exactly as the shadow list does (the refusals are what
 keeps the server's own list free of duplicates). -/
 theorem srvApplyEl_eq (m m' : List File) (el : DeltaEl) (h : srvApplyEl m el = some m') :
@@ -1260,7 +1267,14 @@ theorem srvApplyEl_eq (m m' : List File) (el : DeltaEl) (h : srvApplyEl m el = s
     simp only [srvApplyEl] at h
     split at h
     · cases h
-    · cases h; rfl
+    · rename_i hany
+      cases h
+      simp only [applyEl]
+      have habs : m.any (fun e => decide (e.1 = u)) = false := by
+        cases hb : m.any (fun e => decide (e.1 = u)) with
+        | false => rfl
+        | true => exact absurd hb hany
+      rw [filter_ne_of_absent m u habs]
   | update u c =>
     simp only [srvApplyEl] at h
     split at h
@@ -1306,15 +1320,6 @@ theorem inSyncB_iff (p m : List File) : inSyncB p m = true ↔ InSync p m := by
     intro u _
     exact h u
 
-/-- `Publish` of a URI that is not in the list, `Update`, `Withdraw`: no URI is listed twice
-afterwards. -/
-def freshPublishes : List File → List DeltaEl → Bool
-  | _, [] => true
-  | p, el :: rest =>
-    (match el with
-     | .publish u _ => !(p.any fun e => e.1 = u)
-     | _ => true) && freshPublishes (applyEl p el) rest
-
 theorem nodup_filter_ne (p : List File) (u : String) (h : (p.map (·.1)).Nodup) :
     ((p.filter fun e => e.1 != u).map (·.1)).Nodup :=
   List.Nodup.sublist (List.Sublist.map _ List.filter_sublist) h
@@ -1325,23 +1330,12 @@ theorem not_mem_filter_ne (p : List File) (u : String) :
   intro a _ ha hau
   simp [hau] at ha
 
-theorem nodup_applyEl (p : List File) (el : DeltaEl) (h : (p.map (·.1)).Nodup)
-    (hf : freshPublishes p [el] = true) : ((applyEl p el).map (·.1)).Nodup := by
-  cases el with
-  | publish u c =>
-    simp only [freshPublishes, Bool.and_true, Bool.not_eq_true', List.any_eq_false,
-      decide_eq_true_eq] at hf
-    simp only [applyEl, List.map_append, List.map_cons, List.map_nil]
-    rw [List.nodup_append]
-    refine ⟨h, by simp, ?_⟩
-    intro a ha b hb
-    simp only [List.mem_singleton] at hb
-    subst hb
-    simp only [List.mem_map] at ha
-    obtain ⟨x, hx, rfl⟩ := ha
-    exact hf x hx
-  | update u c =>
-    simp only [applyEl, List.map_append, List.map_cons, List.map_nil]
+theorem nodup_applyEl (p : List File) (el : DeltaEl) (h : (p.map (·.1)).Nodup) :
+    ((applyEl p el).map (·.1)).Nodup := by
+  have push : ∀ (u c : String),
+      (((p.filter fun (e : File) => e.1 != u) ++ [(u, c)]).map (fun (e : File) => e.1)).Nodup := by
+    intro u c
+    simp only [List.map_append, List.map_cons, List.map_nil]
     rw [List.nodup_append]
     refine ⟨nodup_filter_ne p u h, by simp, ?_⟩
     intro a ha b hb
@@ -1350,17 +1344,16 @@ theorem nodup_applyEl (p : List File) (el : DeltaEl) (h : (p.map (·.1)).Nodup)
     intro hab
     subst hab
     exact not_mem_filter_ne p a ha
+  cases el with
+  | publish u c => exact push u c
+  | update u c => exact push u c
   | withdraw u => exact nodup_filter_ne p u h
 
-theorem nodup_applyDelta (p : List File) (d : List DeltaEl) (h : (p.map (·.1)).Nodup)
-    (hf : freshPublishes p d = true) : ((applyDelta p d).map (·.1)).Nodup := by
+theorem nodup_applyDelta (p : List File) (d : List DeltaEl) (h : (p.map (·.1)).Nodup) :
+    ((applyDelta p d).map (·.1)).Nodup := by
   induction d generalizing p with
   | nil => exact h
-  | cons el t ih =>
-    simp only [freshPublishes, Bool.and_eq_true] at hf
-    refine ih (applyEl p el) (nodup_applyEl p el h ?_) hf.2
-    simp only [freshPublishes, Bool.and_true]
-    exact hf.1
+  | cons el t ih => exact ih (applyEl p el) (nodup_applyEl p el h)
 
 /-! ## status store next to the publication server -/
 
